@@ -407,9 +407,15 @@ class Cache(Filter[Iterable[Any], Iterable[Any]]):
 
         yield from self._cache
         items = self._iter
-        while current := list(islice(self._iter,n_slice)):
-            self._cache.extend(current)
-            yield from current
+        try:
+            while current := list(islice(self._iter,n_slice)):
+                self._cache.extend(current)
+                yield from current
+        except Exception:
+            #the source failed so what we have is not a cache of it
+            self._iter  = None
+            self._cache = None
+            raise
         self._iter = None
 
 class Insert(Filter[Iterable[Any], Iterable[Any]]):
